@@ -22,7 +22,7 @@ def main():
         vs = sorted(c["vars"])
         exp_sols = sorted([g[str(i)] for i in vs] if isinstance(g, dict) else list(g) for g in e["solutions"]) if e["symbolic"] else None
         exp_calls = sorted(list(x["a"]) for x in e["calls_at_evaluation"]) if e["symbolic"] else None
-        for kind in ("function", "predicate", "function_int", "predicate_derived", "function_after_binding", "predicate_after_binding"):
+        for kind in ("function", "predicate", "function_int", "predicate_derived", "function_after_binding", "predicate_after_binding", "function_int_equals_zero"):
             if kind not in r:
                 continue
             o = r[kind]
@@ -39,8 +39,11 @@ def main():
                 elif e["symbolic"]:
                     if kind.startswith("function") and o["calls_at_call_time"] != 0:
                         problems.append("the body ran at call time although a variable was passed")
-                    if o["solutions"] != exp_sols:
-                        problems.append(f"solutions {o['solutions']}, expected {exp_sols}")
+                    want = exp_sols
+                    if kind == "function_int_equals_zero":
+                        want = sorted([g[str(i)] for i in vs] if isinstance(g, dict) else list(g) for g in e["solutions_zero"])
+                    if o["solutions"] != want:
+                        problems.append(f"solutions {o['solutions']}, expected {want}")
                     if o["calls_at_evaluation"] != exp_calls:
                         problems.append(f"body invoked with {o['calls_at_evaluation'][:6]}..., expected one call per candidate binding {exp_calls[:6]}...")
                 else:
